@@ -169,6 +169,8 @@ def pyeval(tr, x, apps):
         if a is None or b is None:
             return None
         c = {'lt': a < b, 'le': a <= b, 'gt': a > b, 'ge': a >= b}[tr[1]]
+        if a == b:
+            apps.append(('pw', a - b, True))       # on the boundary of a Piecewise condition
         return pyeval(tr[4], x, apps) if c else pyeval(tr[5], x, apps)
     if k == 'undef':
         return None
@@ -178,8 +180,8 @@ def pyeval(tr, x, apps):
 def cls_of(fname, u):
     """class of an argument value, used in finding keys"""
     if u in BREAKS.get(fname, []):
-        return 'x=%s' % (u if u.denominator != 1 else u.numerator)
-    return 'x<0' if u < 0 else 'x>0'
+        return 'at' + (str(u.numerator) if u.denominator == 1 else '%dover%d' % (u.numerator, u.denominator))
+    return 'neg' if u < 0 else 'pos'
 
 
 # ---------------------------------------------------------------------------
@@ -279,6 +281,21 @@ def gen_tree(rng, dom, info):
     return t
 
 
+REMAP = {'Heaviside': 'UnitStep', 'DiracDelta': 'UnitImpulse', 'rect': 'dtrect', 'sign': 'dtsign'}
+
+
+def canon_tree(tr, dom):
+    """nexpr()/kexpr() replace Heaviside, DiracDelta, rect, sign by their discrete-time variants
+    (functions.function_mapping; a two-argument Heaviside loses its second argument)"""
+    if dom not in ('n', 'k') or not isinstance(tr, list):
+        return tr
+    if tr[0] == 'f':
+        return ['f', REMAP.get(tr[1], tr[1]), canon_tree(tr[2], dom)]
+    if tr[0] == 'heav2':
+        return ['f', 'UnitStep', canon_tree(tr[1], dom)]
+    return [tr[0]] + [canon_tree(x, dom) for x in tr[1:]]
+
+
 def dyadic(x, maxden=64):
     return x.denominator <= maxden and (x.denominator & (x.denominator - 1)) == 0
 
@@ -296,7 +313,17 @@ def gen_points(rng, info, n):
     pts.update([F(rng.choice([64, 1000, 4096])), F(-rng.choice([64, 1000, 4096])), F(rng.randint(-40, 40), 8)])
     pts = sorted(p for p in pts if dyadic(p))
     rng.shuffle(pts)
-    return pts[:n]
+    return pts[:n + 4]
+
+
+def regular(tree, x):
+    """not a singular point (Dirac delta at 0, vanishing denominator): there evaluate falls back to
+    sympy limit()/simplify(), which is outside the model (and can be very slow)"""
+    try:
+        pyeval(tree, x, [])
+        return True
+    except Singular:
+        return False
 
 
 def gen_exact_cases(rng, n):
@@ -305,7 +332,11 @@ def gen_exact_cases(rng, n):
         dom = rng.choice(DOMAINS + ['t', 't', 'n'])
         info = {'args': [], 'pw': []}
         tree = gen_tree(rng, dom, info)
-        pts = gen_points(rng, info, 10)
+        tree = canon_tree(tree, dom)
+        pts = [p for p in gen_points(rng, info, 10) if regular(tree, p) and (dom not in ('n', 'k') or p.denominator == 1)][:10]
+        if len(pts) < 4:
+            pts = sorted(set(pts + [F(-2), F(0), F(1), F(3), F(7)]))
+            pts = [p for p in pts if regular(tree, p)]
         mode = rng.choice(['scalar', 'scalar', 'scalar', 'list', 'array', 'tuple', 'both'])
         c = {'kind': 'expr', 'dom': dom, 'tree': tree, 'points': [fstr(p) for p in pts], 'mode': mode, 'tag': 'gen'}
         if dom in ('t', 'n') and rng.random() < 0.15:
@@ -323,8 +354,10 @@ def probe_cases():
         for bp in BREAKS[name]:
             pts.update([bp, bp - F(1, 16), bp + F(1, 16)])
         for dom in (['t', 'n'] if name in DT_FUNS + ['Heaviside', 'sign'] else ['t']):
-            cases.append({'kind': 'expr', 'dom': dom, 'tree': ['f', name, ['var']], 'points': [fstr(p) for p in sorted(pts)],
-                          'mode': 'scalar', 'tag': 'probe:' + name})
+            tr = canon_tree(['f', name, ['var']], dom)
+            ps = [p for p in sorted(pts) if dom == 't' or p.denominator == 1]
+            cases.append({'kind': 'expr', 'dom': dom, 'tree': tr, 'points': [fstr(p) for p in ps],
+                          'mode': 'scalar', 'tag': 'probe:' + tr[1]})
     for al in ['0', '1/4', '1/2', '1', '2']:
         a = F(al)
         pts = {F(-3), F(0), F(2), -HALF, HALF, -HALF - a / 2, -HALF + a / 2, HALF - a / 2, HALF + a / 2, HALF + a / 4, -HALF - a / 4,
@@ -334,7 +367,8 @@ def probe_cases():
     for z in ['0', '1/4', '1']:
         pts = [F(-2), F(-1, 16), F(0), F(1, 16), F(3)]
         cases.append({'kind': 'expr', 'dom': 't', 'tree': ['heav2', ['var'], z], 'points': [fstr(p) for p in pts], 'mode': 'scalar', 'tag': 'probe:heav2'})
-        cases.append({'kind': 'expr', 'dom': 'n', 'tree': ['step2', ['var'], z], 'points': [fstr(p) for p in pts], 'mode': 'scalar', 'tag': 'probe:step2'})
+        cases.append({'kind': 'expr', 'dom': 'n', 'tree': ['step2', ['var'], z], 'points': ['-2/1', '-1/1', '0/1', '1/1', '3/1'], 'mode': 'scalar', 'tag': 'probe:step2'})
+        cases.append({'kind': 'expr', 'dom': 't', 'tree': ['step2', ['var'], z], 'points': [fstr(p) for p in pts], 'mode': 'scalar', 'tag': 'probe:step2'})
     # results valid for t >= 0 only, scalar and vector, negative first / later
     pw = ['pw', 'ge', ['var'], ['c', '0'], ['div', ['c', '1'], ['add', ['var'], ['c', '2']]], ['undef']]
     cases.append({'kind': 'expr', 'dom': 't', 'tree': pw, 'points': ['-1/1', '-1/16', '0/1', '1/2', '3/1'], 'mode': 'scalar', 'tag': 'probe:pw'})
@@ -371,7 +405,7 @@ Local Open Scope F_scope.
 Ltac k_step := match goal with |- context [keqb K ?a ?b] => destruct (keqb_spec K a b) end; cbn [orb andb negb]; cbv beta iota.
 Ltac sn_norm := repeat match goal with |- context [sn ?a] => match goal with |- context [sn ?b] =>
    first [constr_eq a b; fail 1 | replace (sn a) with (sn b) by (f_equal; ring)] end end.
-Ltac k_solve := intros; repeat k_step; cbn [kz kpos k_iseven k_isodd] in *; sn_norm;
+Ltac k_solve := intros; repeat k_step; cbn [kz kpos k_iseven k_isodd k_isint] in *; sn_norm;
    solve [reflexivity | congruence | (field; auto) | (exfalso; auto) ].
 '''
 
@@ -419,42 +453,52 @@ def theorem_files(em):
     if 'rw_trap' in em.funs and em.funs['rw_trap']['domain'] == 'Q':
         thms = []
         body = HDR + QTAC
-        for tag, al, hyp in (('0', '0', '~ x == 1#2 -> ~ x == -(1#2) -> '), ('1', '1', ''), ('half', '(1#2)', ''), ('2', '2', '')):
+        for tag, al, hyp in (('0', '0', '~ x == 1#2 -> ~ x == -(1#2) -> '), ('1', '1', ''), ('half', '(1#2)', ''), ('quarter', '(1#4)', '')):
             st = 'forall x, %soeq2 (%s) (%s)' % (hyp, wrap('rw_trap', ['x', al]), wrap('sym_trap', ['x', al]))
             nm = 'rw_eq_eval_trap_' + tag
             thms.append((nm, st))
             body += q_theorem(nm, st)
-        add('C17_rw_trap.v', 'trap', thms, body)
+        add('C17_rw_trap.v', ('trap', 'rampstep'), thms, body)
     # sinc family over an abstract field
     kf = {}
-    kf['sincn'] = [('num_eq_sym_sincn', 'forall x, sym_sincn K sn pi x = num_sincn K sn pi x', 'gen_unfold. k_solve.'),
-                   ('rw_eq_eval_sincn', 'forall x, x <> 0 -> rw_sincn K sn pi x = sym_sincn K sn pi x', 'gen_unfold. k_solve.')]
-    kf['sincu'] = [('num_eq_sym_sincu', 'forall x, sym_sincu K sn x = num_sincu K sn x', 'gen_unfold. k_solve.'),
-                   ('rw_eq_eval_sincu', 'forall x, x <> 0 -> rw_sincu K sn x = sym_sincu K sn x', 'gen_unfold. k_solve.')]
+    kf['sincn'] = [('num_eq_sym_sincn', 'forall x, sym_sincn K sn pi int_of x = num_sincn K sn pi int_of x', 'gen_unfold. k_solve.'),
+                   ('rw_eq_eval_sincn', 'forall x, x <> 0 -> rw_sincn K sn pi int_of x = sym_sincn K sn pi int_of x', 'gen_unfold. k_solve.')]
+    kf['sincu'] = [('num_eq_sym_sincu', 'forall x, sym_sincu K sn pi int_of x = num_sincu K sn pi int_of x', 'gen_unfold. k_solve.'),
+                   ('rw_eq_eval_sincu', 'forall x, x <> 0 -> rw_sincu K sn pi int_of x = sym_sincu K sn pi int_of x', 'gen_unfold. k_solve.')]
     # lambdify prints sympy's sinc(x) as sinc(x/pi) (contract checked on every run against the real printer)
-    kf['sinc'] = [('num_eq_sym_sinc', 'pi <> 0 -> forall x, spec_sinc K sn x = num_sinc K sn pi (x / pi)',
+    kf['sinc'] = [('num_eq_sym_sinc', 'pi <> 0 -> forall x, spec_sinc K sn x = num_sinc K sn pi int_of (x / pi)',
                    'gen_unfold. intros Hpi x. replace (x / pi * pi) with x by (field; exact Hpi). k_solve.')]
     kf['psinc'] = [('num_eq_sym_psinc_generic',
-                    'forall M x, x <> 0 -> int_of x = None -> sn (pi * x) <> 0 -> sym_psinc K sn pi int_of M x = num_psinc K sn pi M x',
+                    'forall M x, x <> 0 -> int_of x = None -> sn (pi * x) <> 0 -> sym_psinc K sn pi int_of M x = num_psinc K sn pi int_of M x',
                     'gen_unfold. intros M x Hx Hi Hs. rewrite ?Hi. k_solve.'),
                    ('num_eq_sym_psinc_zero',
-                    'forall M, int_of 0 = Some 0%Z -> sn (pi * 0) = 0 -> sym_psinc K sn pi int_of M 0 = num_psinc K sn pi M 0',
-                    'gen_unfold. intros M Hi Hs. rewrite ?Hi, ?Hs. k_solve.'),
+                    'forall M, int_of 0 = Some 0%Z -> int_of (0 * (M - 1)) = Some 0%Z -> sn (pi * 0) = 0 -> '
+                    'sym_psinc K sn pi int_of M 0 = num_psinc K sn pi int_of M 0',
+                    'gen_unfold. intros M Hi Hp Hs. cbn [kz kpos] in *. rewrite ?Hi, ?Hp, ?Hs. k_solve.'),
                    ('rw_eq_eval_psinc',
-                    'forall M x, x <> 0 -> int_of x = None -> rw_psinc K sn pi M x = sym_psinc K sn pi int_of M x',
+                    'forall M x, x <> 0 -> int_of x = None -> rw_psinc K sn pi int_of M x = sym_psinc K sn pi int_of M x',
                     'gen_unfold. intros M x Hx Hi. rewrite ?Hi. k_solve.')]
     # at an integer x = k (M = m integer) the symbolic value must be the continuous extension (-1)^(k (m-1))
     kf['psinc_int'] = [('sym_psinc_int',
-                        'forall M x m k, int_of M = Some m -> int_of x = Some k -> sym_psinc K sn pi int_of M x = psinc_int_spec K m k',
-                        'gen_unfold. intros M x m k HM Hx. rewrite ?HM, ?Hx. cbn [k_iseven k_isodd].\n'
+                        'forall M x m k, int_of M = Some m -> int_of x = Some k -> (x = 0 -> k = 0%Z) -> '
+                        'sym_psinc K sn pi int_of M x = psinc_int_spec K m k',
+                        'gen_unfold. intros M x m k HM Hx H0. rewrite ?HM, ?Hx. cbn [k_iseven k_isodd k_isint].\n'
                         '  rewrite ?Z.even_mul, ?Z.even_sub, <- ?Z.negb_even. change (Z.even 1) with false.\n'
-                        '  destruct (Z.even k) eqn:Ek; destruct (Z.even m) eqn:Em; cbn [negb orb andb xorb eqb Bool.eqb]; k_solve.')]
+                        '  destruct (Z.even k) eqn:Ek; destruct (Z.even m) eqn:Em; cbn [negb orb andb xorb eqb Bool.eqb];\n'
+                        '  repeat k_step; cbn [kz kpos] in *; try reflexivity;\n'
+                        '  exfalso; match goal with E : x = _ |- _ => specialize (H0 E); subst k; discriminate end.')]
+    # ... and so must the numeric value (exact arithmetic: sin(pi x) = 0 at an integer x)
+    kf['psinc_num_int'] = [('num_psinc_int',
+                            'forall M x m k, int_of M = Some m -> int_of x = Some k -> int_of (x * (M - 1)) = Some (k * (m - 1))%Z -> '
+                            'sn (pi * x) = 0 -> num_psinc K sn pi int_of M x = psinc_int_spec K m k',
+                            'gen_unfold. intros M x m k HM Hx Hp Hs. cbn [kz kpos] in *. rewrite ?HM, ?Hx, ?Hp, ?Hs. cbn [k_iseven k_isodd k_isint].\n'
+                            '  destruct (Z.even (k * (m - 1))); k_solve.')]
     for key, thms in kf.items():
         body = HDR + KSEC
         for nm, st, pr in thms:
             body += 'Theorem %s : %s.\nProof. %s Qed.\n' % (nm, st, pr)
         body += 'End S.\n' + ''.join('Print Assumptions %s.\n' % nm for nm, _, _ in thms)
-        add('C17_k_%s.v' % key, 'psinc' if key == 'psinc_int' else key, [(nm, st) for nm, st, _ in thms], body)
+        add('C17_k_%s.v' % key, 'psinc' if key.startswith('psinc') else key, [(nm, st) for nm, st, _ in thms], body)
     return files
 
 
@@ -465,7 +509,7 @@ def expr_file(ok_keys, causal_funs):
     b = lambda k: 'true' if k in ok_keys else 'false'
     glue = []
     for cons, key in TF.FN1:
-        glue.append('  - %s' % ('apply num_eq_sym_%s; assumption.' % key if key in ok_keys else 'discriminate.'))
+        glue.append('  + %s' % ('apply num_eq_sym_%s; assumption.' % key if key in ok_keys else 'discriminate.'))
     t = HDR + imps + QTAC + '''
 Definition ok_fn (f : fn1) : bool := match f with
 %s
@@ -581,9 +625,10 @@ def parse_lists(out):
 def text_cases(rng, tier):
     cs = []
 
-    def add(text, pts, fkey, dom='t', discs=(), mode='scalar', **kw):
+    def add(text, pts, fkey, dom='t', discs=(), mode='scalar', apps=(), **kw):
         c = {'kind': 'text', 'text': text, 'points': [p if isinstance(p, str) else fstr(p) for p in pts], 'fkey': fkey,
-             'dom': dom, 'discs': [[fstr(a), fstr(b), [fstr(d) for d in ds]] for a, b, ds in discs], 'mode': mode}
+             'dom': dom, 'discs': [[fstr(a), fstr(b), [fstr(d) for d in ds]] for a, b, ds in discs], 'mode': mode,
+             'apps': [[n_, fstr(a), fstr(b)] for n_, a, b in apps]}
         c.update(kw)
         cs.append(c)
     R = [F(-5, 2), F(-1), F(-1, 3), F(0), F(1, 64), F(1, 3), HALF, F(1), F(5, 2), F(3), F(7)]
@@ -607,12 +652,12 @@ def text_cases(rng, tier):
     add('besselj(0, %d*t)' % a, [F(0), HALF, F(1), F(5, 2), F(10), F(-3)], 'besselj', 't')
     add('besselj(1, t) + besseli(0, t/2)', [F(0), HALF, F(1), F(5, 2), F(-3)], 'bessel', 't')
     add('rect(t/%d)*cos(t)' % b, R, 'rect*cos', 't', discs=[(F(1, b), F(0), [HALF, -HALF])])
-    add('tri(t - 1)*exp(t)', R, 'tri*exp', 't')
+    add('tri(t - 1)*exp(t)', R, 'tri*exp', 't', apps=[('tri', F(1), F(-1))])
     add('trap(t, 1/2)*sin(t)', R + [F(5, 8), F(-5, 8)], 'trap*sin', 't')
-    add('ramp(t - 1)*exp(-t) + rampstep(2*t)', R + [F(1, 4), F(40)], 'ramp', 't')
+    add('ramp(t - 1)*exp(-t) + rampstep(2*t)', R + [F(1, 4), F(40)], 'ramp', 't', apps=[('ramp', F(1), F(-1)), ('rampstep', F(2), F(0))])
     add('Piecewise((exp(-%d*t), t >= 0))' % a, [F(0), HALF, F(3), F(-1, 64), F(-2)], 'pw_ge', 't', pw_ge=fstr(0))
     add('Piecewise((exp(-%d*t), t >= 0))' % a, [HALF, F(3), F(-2), F(1)], 'pw_ge', 't', pw_ge=fstr(0), mode='list')
-    add('Piecewise((sin(t), t < 1), (cos(t), True))', R, 'pw2', 't', discs=[(F(1), F(-1), [F(0)])])
+    add('Piecewise((sin(t), t < 1), (cos(t), t >= 1))', R, 'pw2', 't', discs=[(F(1), F(-1), [F(0)])])
     add('delta(t - 1) + exp(-t)', R, 'delta', 't', discs=[(F(1), F(-1), [F(0)])])
     # frequency responses / transform domains, real and complex points
     cp = ['0', '1/2', '-3', '1/2,1', '-3,2', '0,5', '-1/4,-7/2', '1000', '0,1000']
@@ -628,8 +673,8 @@ def text_cases(rng, tier):
     add('n*(-1/2)**n*u(n)', NI, 'ngeom', 'n')
     add('cos(pi*n/%d)*u(n - 1)' % (b + 1), NI, 'cos_n', 'n')
     add('delta(n - 2) + 3*delta(n)', NI, 'ui', 'n')
-    add('sign(n)*exp(-abs(n)/3)', NI, 'dtsign*exp', 'n')
-    add('rect(n/4)', NI + [F(2), F(-2)], 'dtrect', 'n')
+    add('sign(n)*exp(-abs(n)/3)', NI, 'dtsign*exp', 'n', apps=[('dtsign', F(1), F(0))])
+    add('rect(n/4)', NI + [F(2), F(-2)], 'dtrect', 'n', apps=[('dtrect', F(1, 4), F(0))])
     add('exp(-j*2*pi*k/8)', [F(0), F(1), F(3), F(7), F(-2)], 'dft', 'k', complex=True)
     # vector forms of some of the above
     for c in list(cs):
@@ -646,16 +691,16 @@ def text_class(c, p):
     fk = c['fkey']
     x = F(p.split(',')[0]) if ',' not in p else None
     if fk == 'sinc':
-        return 'x!=0' if x != 0 else 'x=0'
+        return 'nonzero' if x != 0 else 'at0'
     if fk == 'psinc':
         if x is not None and x.denominator == 1:
             return '%s-x,%s-M' % ('odd' if x.numerator % 2 else 'even', 'odd' if c['M'] % 2 else 'even')
         return 'nonint'
     if fk == 'exp':
-        return 'arg>500' if x is not None and x > 500 else 'arg<=500'
+        return 'arg-above-500' if x is not None and x > 500 else 'arg-upto-500'
     if x is None:
         return 'complex'
-    return 'x=0' if x == 0 else ('x<0' if x < 0 else 'x>0')
+    return 'at0' if x == 0 else ('neg' if x < 0 else 'pos')
 
 
 def at_disc(c, p):
@@ -925,6 +970,9 @@ def run(tier='quick', replay=None):
             return '%s:expr:%s' % (kind, tree_hash(c['tree']))
         nid = 0
         for ci, (c, r) in enumerate(zip(exact, eres)):
+            if 'timeout' in r:
+                res.count('impl_timeout')
+                continue
             if 'error' in r:
                 res.count('impl_error')
                 add_cex('impl_error:' + r['error'].split(':')[0], 'building/evaluating the expression failed: ' + r['error'], c)
@@ -936,6 +984,16 @@ def run(tier='quick', replay=None):
             vec = c['mode'] != 'scalar'
             pts_info = []
             vec_ok = True
+            # a clause that is identically 0 after construction: Piecewise((0, cond))
+            zero_clause = r.get('str', '').startswith('Piecewise((0,')
+            want_names = set({'heav2': 'Heaviside', 'step2': 'UnitStep'}.get(n_, n_) for n_ in funcs_in(c['tree']))
+            extra = set(r.get('funcs', [])) - want_names - {'Piecewise', 'Abs'}
+            if r.get('const') and vec:
+                # the expression folded to a constant: evaluate takes its `var is None` branch, which is not modelled
+                res.count('constant_folded_vector')
+                continue
+            if extra:
+                res.disagreements.append({'case': c, 'side': 'function names after construction', 'lcapy': {'funcs': r.get('funcs'), 'str': r.get('str')}})
             for j, (x, rj) in enumerate(zip(xs, r['res'])):
                 apps = []
                 try:
@@ -951,6 +1009,7 @@ def run(tier='quick', replay=None):
                     vec_ok = False
                     continue
                 disc = any(a[2] for a in apps)
+                on_pw = any(a[0] == 'pw' for a in apps)
                 so = observed(rj, 'sym')
                 no = observed(rj, 'num') if not (vec and 'vec_err' in r) else ('none',)
                 pts_info.append((x, so, no, disc, apps))
@@ -966,7 +1025,11 @@ def run(tier='quick', replay=None):
                     items.append((nid, 'sym', 'oqeq (eval sym_tab e_%d %s) %s' % (ci, qcl(x), obs)))
                     meta[nid] = (ci, j, 'sym')
                     nid += 1
-                if not vec and no[0] != 'skip' and em is not None:
+                if on_pw or zero_clause:
+                    # on the boundary of a condition / for an identically-zero clause evaluate goes through the
+                    # limit()/simplify() fall-backs, which are outside the model
+                    vec_ok = False
+                if not vec and no[0] != 'skip' and em is not None and not on_pw and not (zero_clause and so[0] == 'none'):
                     obs = 'ORaise' if no[0] == 'none' else '(OScalar %s)' % qcl(no[1])
                     items.append((nid, 'num', 'outeq (nrun %s e_%d (Scalar %s) None) %s' % ('true' if cflag else 'false', ci, qcl(x), obs)))
                     meta[nid] = (ci, j, 'num')
@@ -987,6 +1050,10 @@ def run(tier='quick', replay=None):
                                 'is_causal is inferred True but exact substitution at a negative time is not 0 (the mask changes the value)', c, c['points'][j], lcapy=rj)
                     continue
                 if disc or so[0] == 'skip' or no[0] == 'skip':
+                    continue
+                if zero_clause and so[0] == 'none' and no[0] == 'val':
+                    add_cex('extrapolated:zero-clause', '%s has no clause at %s but evaluate returns %s (identically-zero clause)' % (
+                        r.get('str'), c['points'][j], no[1]), c, c['points'][j], lcapy=rj)
                     continue
                 if so[0] == 'val' and no[0] == 'val' and so[1] != no[1]:
                     add_cex(attribute(c, x, apps, 'sym_ne_num'), 'evaluate(%s) = %s but exact substitution gives %s (not a discontinuity)' % (
@@ -1056,6 +1123,9 @@ def run(tier='quick', replay=None):
         # ---- 5. float search oracle ----------------------------------------------------
         notes = []
         for c, r in zip(tcases, tres):
+            if 'timeout' in r:
+                res.count('impl_timeout')
+                continue
             if 'error' in r:
                 add_cex('impl_error:text:' + c['fkey'], 'expr(%r) failed: %s' % (c['text'], r['error']), c)
                 continue
@@ -1088,7 +1158,14 @@ def run(tier='quick', replay=None):
                 if d <= 1e-9 * scale:
                     continue
                 if d > 1e-6 * scale:
-                    add_cex('sym_ne_num:%s:%s' % (c['fkey'], text_class(c, p)), 'evaluate(%s) of %s = %r but sympy.N(subs, 50) = %r' % (p, c['text'], nv, sv),
+                    key = 'sym_ne_num:%s:%s' % (c['fkey'], text_class(c, p))
+                    if ',' not in p:
+                        for n_, a_, b_ in c.get('apps', []):
+                            u_ = F(a_) * F(p) + F(b_)
+                            if (n_, cls_of(n_, u_)) in defects:
+                                key = 'sym_ne_num:%s:%s' % (n_, cls_of(n_, u_))
+                                break
+                    add_cex(key, 'evaluate(%s) of %s = %r but sympy.N(subs, 50) = %r' % (p, c['text'], nv, sv),
                             c, p, lcapy=rj, float_evidence=True)
                 else:
                     notes.append('rounding-level difference %.2e (not reported): %s at %s' % (d / scale, c['text'], p))
@@ -1208,8 +1285,8 @@ def run(tier='quick', replay=None):
 
         def explained(name, f_):
             if f_ in file_key:
-                k = file_key[f_]
-                return any(q.split(':')[0] in ('sym_ne_num', 'raises') and q.split(':')[1] == k for q in seen)
+                ks = file_key[f_] if isinstance(file_key[f_], tuple) else (file_key[f_],)
+                return any(q.split(':')[0] in ('sym_ne_num', 'raises') and q.split(':')[1] in ks for q in seen)
             if f_ == 'C17_expr.v':
                 return any(not r1[g][0] for g in tfiles)      # a per-function theorem is already reported
             for pat, prefs in THM_EXPLAIN:
@@ -1223,6 +1300,7 @@ def run(tier='quick', replay=None):
                 continue
             violations.append({'key': 'obligation:' + name, 'what': 'Coq obligation %s in %s no longer checks' % (name, f_),
                                'theorem': name, 'file': f_, 'statement': stmts.get(name), 'message': msg, 'found_input': False})
+        res.extra['disagreement_samples'] = res.disagreements[:5]
         dk = set()
         for d in res.disagreements:
             c = d['case']
